@@ -970,6 +970,21 @@ def discharge_by_guard(s):
                                 core = {x for x in src if x[0] in ("arg", "call", "field", "upvar")}
                                 if core and core <= set(lr):
                                     return "guard: destination is get_mut(0..src.len())"
+        # mirrored idiom: dst.copy_from_slice(src.get(0..dst.len())?)
+        srcr = pr.of_operand(s.call.args[1])
+        for r in srcr:
+            if r[0] == "call" and r[1] in ("slice::get", "Index::index"):
+                gc = [c for c in b.calls() if c.bb == r[2]]
+                if gc:
+                    rng = pr.of_operand(gc[0].args[1])
+                    dstr = Prov(b).of_operand(s.call.args[0])
+                    if has_root(rng, "call", "slice::len") and has_root(rng, "agg", "Range") and has_root(rng, "const", 0):
+                        for lc in b.calls_to("slice::len"):
+                            if any(x[0] == "call" and x[1] == "slice::len" and x[2] == lc.bb for x in rng):
+                                lr = Prov(b).of_operand(lc.args[0])
+                                core = {x[:2] for x in dstr if x[0] in ("call", "field", "upvar")}
+                                if core and core <= {x[:2] for x in lr}:
+                                    return "guard: source is get(0..dst.len())"
     return None
 
 
